@@ -1,8 +1,10 @@
 import EupsModel.Lemmas.RecordReloc
+import EupsModel.Lemmas.RecordText
 /-! C16 — database records round-trip and stacks are relocatable.  Property theorems only.
 Model and the specification-side definitions used in the statements (`DirPl`, `TabPl`, `DirPl.at`, `TabPl.at`,
 `declaredProd`, `canonInfo`, `PlaceOK`, `DeclEx`, `ReadEx`, `readBack`): `Model/Record.lean`; helper lemmas:
-`Lemmas/Record.lean`, `Lemmas/RecordReloc.lean`. -/
+`Lemmas/Record.lean`, `Lemmas/RecordReloc.lean`, `Lemmas/RecordText.lean` (there also `Clean`, `CleanKey`, `GoodInfo`,
+`GoodVRec`, `GoodCInfo`, `GoodCRec`, `TrimStable`). -/
 namespace EupsModel.C16
 open EupsModel.Record
 
@@ -66,5 +68,71 @@ example : ReadEx (fun _ => true) [[109], [110]] [97] [49] [76] (.inside [[76], [
 example : readBack (fun _ => true) (fun _ => true) [[115]] [[109], [110]] [97] [49] [76] (.inside [[76], [97], [49]]) .interned
     = .ok (.path ⟨true, [[109], [110], [76], [97], [49]]⟩,
            .path ⟨true, [[109], [110], sUpsDb, [76], [97], [49], sUps, [97] ++ sDotTable]⟩) := by rfl
+
+/-! ## Text round trip
+
+`Clean s`: `s` is non-empty, free of `#`, newline, carriage return and quote characters and has no blank at
+either end.  `GoodVRec r`: product name and version are clean; at least one flavor; flavor names distinct, clean
+and without a qualifier (`:`); in every block each of DECLARER, DECLARED, MODIFIER, MODIFIED, PROD_DIR, UPS_DIR,
+TABLE_FILE is absent or clean, PROD_DIR and TABLE_FILE are present, and UPS_DIR is present unless the table file
+is a placeholder (`none`).  `GoodCRec r`: likewise for a chain record (name, tag, per flavor a clean VERSION and
+the four stamps). -/
+
+/-- **Version files round-trip** (string level): `VersionFile.write` followed by `VersionFile._read` — with the
+product name and version taken from the file or preset to the record's own — yields the same name, version,
+flavors (in order) and per-flavor fields. -/
+theorem C16_text_roundtrip_version (r : VRec) (h : GoodVRec r) (nm vs : Option Str)
+    (hnm : nm = none ∨ nm = r.name) (hvs : vs = none ∨ vs = r.version) :
+    ∃ text, printVersion r = .ok (some text) ∧ parseVersion nm vs text = .ok r :=
+  text_roundtrip_version r h nm vs hnm hvs
+
+/-- **Chain files round-trip** (string level): `ChainFile.write` followed by `ChainFile._read` yields the same
+product name, tag, flavors (in order), tagged versions and stamps. -/
+theorem C16_text_roundtrip_chain (r : CRec) (h : GoodCRec r) (nm tg : Option Str)
+    (hnm : nm = none ∨ nm = r.name) (htg : tg = none ∨ tg = r.tag) :
+    ∃ text, printChain r = .ok (some text) ∧ parseChain nm tg text = .ok r :=
+  text_roundtrip_chain r h nm tg hnm htg
+
+/-- **Other flavors untouched**: `Database.declare` for one flavor of a version file leaves the block of every
+other flavor exactly as it was — hypothesis `TrimStable`: that block holds no existing absolute path below the
+stack root (what the trimming loop of `VersionFile.write` rewrites; blocks eups wrote itself for the listed
+placements hold relative paths for everything inside the stack). -/
+theorem C16_other_flavors_untouched (ex : Path → Bool) (who now : Str) (vr vr' : VRec) (p : Record.Prod)
+    (h : declareRec ex who now vr p = .ok vr') (f' : Str) (hf : f' ≠ p.flavor) (i : Info)
+    (hi : dget vr.flavors f' = some i) (hs : TrimStable ex (stackRoot p.db) i) :
+    dget vr'.flavors f' = some i :=
+  other_flavors_untouched ex who now vr vr' p h f' hf i hi hs
+
+/-! Non-vacuity: a concrete good version record with two flavors, and a good chain record. -/
+def exampleInfo1 : Info :=
+  { declarer := Fld.val [114], declared := Fld.val [84, 49], productDir := Fld.val [76, 47, 97],
+    upsDir := Fld.val [117, 112, 115], tableFile := Fld.val [97, 46, 116] }
+def exampleInfo2 : Info :=
+  { declarer := Fld.val [114], declared := Fld.val [84, 50], modifier := Fld.val [114],
+    modified := Fld.val [84, 32, 51], productDir := Fld.val [110, 111, 110, 101],
+    tableFile := Fld.val [110, 111, 110, 101] }
+def exampleVRec : VRec :=
+  { name := some [97], version := some [49, 46, 48], flavors := [([76], exampleInfo1), ([71], exampleInfo2)] }
+
+example : GoodVRec exampleVRec := by
+  unfold exampleVRec exampleInfo1 exampleInfo2
+  have c : ∀ s : Str, s ≠ [] → 35 ∉ s → 10 ∉ s → 13 ∉ s → 34 ∉ s → (∀ c, s.head? = some c → Str.isSpace c = false) →
+      (∀ c, s.getLast? = some c → Str.isSpace c = false) → Clean s := fun s a b c d e f g => ⟨a, b, c, d, e, f, g⟩
+  refine ⟨⟨_, rfl, c _ (by decide) (by decide) (by decide) (by decide) (by decide) (by decide) (by decide)⟩,
+    ⟨_, rfl, c _ (by decide) (by decide) (by decide) (by decide) (by decide) (by decide) (by decide)⟩,
+    by simp, by decide, ?_⟩
+  intro x hx
+  simp only [List.mem_cons, List.not_mem_nil, or_false] at hx
+  rcases hx with rfl | rfl
+  · refine ⟨⟨c _ (by decide) (by decide) (by decide) (by decide) (by decide) (by decide) (by decide), by decide⟩,
+      ⟨⟨?_, ?_, ?_, ?_, ?_, ?_, ?_⟩, by simp, by simp, Or.inl (by simp)⟩⟩
+    all_goals first
+      | exact Or.inl rfl
+      | exact Or.inr ⟨_, rfl, c _ (by decide) (by decide) (by decide) (by decide) (by decide) (by decide) (by decide)⟩
+  · refine ⟨⟨c _ (by decide) (by decide) (by decide) (by decide) (by decide) (by decide) (by decide), by decide⟩,
+      ⟨⟨?_, ?_, ?_, ?_, ?_, ?_, ?_⟩, by simp, by simp, Or.inr ⟨_, rfl, by decide⟩⟩⟩
+    all_goals first
+      | exact Or.inl rfl
+      | exact Or.inr ⟨_, rfl, c _ (by decide) (by decide) (by decide) (by decide) (by decide) (by decide) (by decide)⟩
 
 end EupsModel.C16
